@@ -493,6 +493,19 @@ class C09(PropertyCheck):
             D = dyadic_hist(rng, r, c, rng.choice([0.0, 0.0, 0.3]))
             cases.append({"kind": "measure", "name": rng.choice(MEASURES), "H": H.tolist(), "dist": D.tolist(),
                           "renorm": rng.random() < 0.25})
+        # many bins (up to the clamp's maximum the bins are 16-bit indices): a sparse histogram whose mass sits in bins
+        # of index >= 256 / >= 2**12 on one axis - squares of bin indices must not be taken in a narrow integer type
+        for k in range(max(6, n_meas // 12)):
+            big = rng.choice([257, 300, 1024, 5000])
+            small = rng.choice([2, 3])
+            shape = (big, small) if rng.random() < 0.5 else (small, big)
+            H = np.zeros(shape)
+            for _ in range(rng.choice([2, 3, 4])):
+                i = rng.choice([0, 1, 255, 256, big - 1, big // 2, big - 2])
+                j = rng.randrange(small)
+                H[(i, j) if shape[0] == big else (j, i)] += rng.choice([1.0, 2.0, 0.5, 3.0])
+            cases.append({"kind": "measure", "name": rng.choice(["cc", "cr", "crl1", "mi", "nmi"]), "H": H.tolist(),
+                          "dist": np.zeros(shape).tolist(), "renorm": False})
         for k in range(n_l1):
             n = rng.choice([1, 2, 3, 4, 5, 8, 13])
             zp = rng.choice([0.0, 0.3, 0.7, 1.0])
